@@ -354,9 +354,25 @@ def var_records(run, fc, box, key, it):
             run.check(v[0] == "const" and v[1] == b"\x00" * 4, "R3", key + " sample_size=0", "variable sizes", "sample_size field is not the constant 0")
         cnt = B.field_value(view, pre, 4)
         if not rest:
-            # empty table (fragmented init): count must be the constant 0
-            run.check(cnt[0] == "const" and cnt[1] == b"\x00" * 4 and len(view) == pre + 4, "R3", key + " empty-table", "entry count 0, no entries",
-                      "table without entries must have count 0 and nothing else")
+            # all-constant table: count must equal the number of constant entries that follow
+            n = len(view) - pre - 4
+            good = cnt[0] == "const" and n >= 0 and n % entry == 0 and int.from_bytes(cnt[1], "big") == n // entry
+            run.check(good, "R3", key + " const-table", "entry count %s matches %d constant entr(y/ies)" % (cnt[1].hex() if cnt[0] == "const" else "?", max(n, 0) // entry),
+                      "constant table: count field does not match the entries that follow")
+            return
+        ce = cnt[1][1] if cnt[0] == "expr" else None
+        while ce is not None and ce[0] == "cast":
+            ce = ce[2]
+        if ce is not None and ce[0] == "len" and isinstance(ce[1], tuple) and ce[1][:1] == ("listval",):
+            # the table is produced by iterating a known list value: compare the list's shape with the shape of the entries
+            try:
+                want = L.strip_ids(L.freeze(_thaw_shape(ce[1][1])))
+                got = L.strip_ids(L.freeze(entries_shape(rest, entry)))
+                good = want == got
+            except L.Unanalysable as ex:
+                good, want, got = False, str(ex), ""
+            run.check(good, "R3", key + " count==entries", "count = length of the list whose elements are emitted one %d-byte entry each" % entry,
+                      "entry count is the length of a list whose structure differs from the entries emitted")
             return
         rep = rest[0]
         good = len(rest) == 1 and rep[0] == "rep" and cnt[0] == "expr" and count_matches(cnt[1], rep)
@@ -430,6 +446,43 @@ def var_records(run, fc, box, key, it):
         tail = _after(segs, 4)
         good = tail is not None and len(tail) == 1 and tail[0][0] == "blob" and "sequence_header" in " ".join(L.field_names(tail[0][1]))
         run.check(good, "R3", key + " configOBUs", "sequence header OBU appended verbatim", "av1C configOBUs is not the verbatim sequence header after a 4-byte header: %s" % (", ".join(L.show(s) for s in (tail or []))[:200]))
+
+
+def _thaw_shape(x):
+    return x
+
+
+def entries_shape(segs, entry):
+    """shape of a table body: every run of fixed-width segments must be a whole number of entries -> that many ('item',)"""
+    out = []
+    run_w = 0
+
+    def flush():
+        nonlocal run_w
+        if run_w % entry:
+            raise L.Unanalysable("partial entry (%d bytes)" % run_w)
+        out.extend([("item",)] * (run_w // entry))
+        run_w = 0
+    for s in segs:
+        k = s[0]
+        if k in ("c", "be", "le", "u8"):
+            run_w += L.seg_width(s).const
+            continue
+        flush()
+        if k == "rep":
+            out.append(("rep", s[1], s[2], entries_shape(s[3], entry)))
+        elif k == "perm":
+            out.append(("perm", ("key",), entries_shape(s[2], entry)))
+        elif k == "alt":
+            out.append(("alt", s[1], entries_shape(s[2], entry), entries_shape(s[3], entry)))
+        elif k == "match":
+            out.append(("match", s[1], [(p, entries_shape(x, entry)) for p, x in s[2]]))
+        elif k == "ploop":
+            out.append(("ploop", s[1], ("key",) if s[2] else None, [("part", entries_shape(p[1], entry)) if p[0] == "part" else ("rep", p[1], p[2], entries_shape(p[3], entry)) for p in s[3]]))
+        else:
+            raise L.Unanalysable("table body contains a %s segment" % k)
+    flush()
+    return out
 
 
 def _alternatives(segs):
